@@ -297,6 +297,15 @@ def check(P, R):
         tgt = dc.generators[0].target
         ok = isinstance(tgt, ast.Tuple) and src(dc.key) == src(tgt.elts[0]) and src(dc.value) == src(tgt.elts[1]) and \
             any('anon_prefix' in src(i) and 'startswith' in src(i) for i in dc.generators[0].ifs)
+    elif ok:
+        loops_ = [l for l in walk_shallow(mp.node) if isinstance(l, ast.For) and l.iter is z[0]]
+        if loops_ and isinstance(loops_[0].target, ast.Tuple) and len(loops_[0].target.elts) == 2:
+            a_, b_ = [src(e) for e in loops_[0].target.elts]
+            stores = [st_ for st_ in walk_shallow(loops_[0]) if isinstance(st_, ast.Assign) and isinstance(st_.targets[0], ast.Subscript)]
+            ok = bool(stores) and all(src(st_.targets[0].slice) == a_ and src(st_.value) == b_ for st_ in stores) and \
+                any(isinstance(t_, ast.If) and 'anon_prefix' in src(t_.test) and 'startswith' in src(t_.test) for t_ in walk_shallow(loops_[0]))
+        else:
+            R.undecided('C01.f', mp, mp.node, 'make_params_dict', 'neither a dict comprehension nor a loop over zip(names, values)')
     R.ob('C01.f', mp, z[0] if z else mp.node, ok, text='{name: value for name, value in zip(names, values) if not anonymous}', detail='' if ok else
          'names and values are not zipped positionally (or anonymous wildcards are not dropped)')
     rs = P.func(f'{RR}:RadiRouter.resolve')
@@ -304,7 +313,8 @@ def check(P, R):
     gets = [st for st in walk_shallow(rs.node) if isinstance(st, ast.Assign) and isinstance(st.targets[0], ast.Tuple) and len(st.targets[0].elts) == 2
             and isinstance(st.value, ast.Call) and dotted(st.value.func) == 'self.radidict.get']
     extra = gets[0].targets[0].elts[1].id if gets and isinstance(gets[0].targets[0].elts[1], ast.Name) else '?'
-    ok = bool(calls) and [src(a).replace('"', "'") for a in calls[0].args] == [f"{extra}['param_keys']", f"{extra}['param_values']"]
+    ok = bool(calls) and [T.xsrc(rs, a, rs.cfg.node_of_stmt(calls[0])[0], keep=(extra,)).replace('"', "'") for a in calls[0].args] == \
+        [f"{extra}['param_keys']", f"{extra}['param_values']"]
     R.ob('C01.f', rs, calls[0] if calls else rs.node, ok, text="make_params_dict(extra['param_keys'], extra['param_values'])", detail='' if ok else
          'names and values do not come from the same lookup result in (names, values) order')
     # get returns PARAMS of the terminal node and the collected values
@@ -366,8 +376,20 @@ def check(P, R):
                 det = (f'"no separator ahead" is decided by `{short(tests[0].ast) if tests else "?"}` instead of `{jn} < 0`: a separator exactly at the cursor (an empty '
                        f'segment) is taken for "not found" and the wildcard swallows the rest of the path')
             form = 'find'
+        elif any(x.kind == 'for' and isinstance(x.value, ast.Call) and dotted(x.value.func) == 'range' for x in jdefs):
+            # for j in range(i, L): if route[j] == SEP: break  /  else: j = L
+            fd = [x for x in jdefs if x.kind == 'for'][0]
+            lp = fd.stmt
+            rng = fd.value.args
+            brk = [t for t in walk_shallow(lp) if isinstance(t, ast.If) and compare_parts(t.test) and compare_parts(t.test)[1] is ast.Eq
+                   and f'{roles["route"]}[{jn}]' in src(t.test) and any(isinstance(b, ast.Break) for b in t.body)]
+            ends = [x for x in jdefs if x.kind == 'assign' and any(x.stmt is s_ for s_ in lp.orelse)]
+            ok = len(rng) == 2 and src(rng[0]) == roles['cursor'] and bool(brk) and bool(ends) and all(src(x.value) == src(rng[1]) for x in ends) \
+                and len(jdefs) == 1 + len(ends)
+            form, det = 'for-range', '' if ok else 'the range scan does not start at the cursor, does not stop at the separator, or does not end at the range end'
         else:
-            ok, det = False, 'cannot recognise how the end of the wildcard value is computed'
+            R.undecided('C01.i', f, d.stmt, f'{short(d.stmt)}: end of the plain wildcard value', 'no recogniser for how it is computed')
+            continue
         R.ob('C01.i', f, d.stmt, ok, text=f'{short(d.stmt)} with {jn} = next separator at or after the cursor, else the end [{form}]', detail=det,
              why='an empty segment is matched by a plain wildcard as the empty string; rules after it must still match')
 
